@@ -193,6 +193,35 @@ def solve(ob, timeout_ms, both, extra_axioms=()):
     return res
 
 
+def _has_quantifier(x):
+    stack, seen = [x], set()
+    while stack:
+        y = stack.pop()
+        if y.get_id() in seen:
+            continue
+        seen.add(y.get_id())
+        if z3.is_quantifier(y):
+            return True
+        stack.extend(y.children())
+    return False
+
+
+def candidate_model(ob, timeout_ms=8000):
+    s = z3.Solver()
+    s.set("timeout", timeout_ms)
+    for h in ob.hyps:
+        if not _has_quantifier(h):
+            s.add(h)
+    ng = z3.Not(ob.goal)
+    s.add(ng)
+    try:
+        if s.check() == z3.sat:
+            return s.model()
+    except z3.Z3Exception:
+        pass
+    return None
+
+
 def run_job(arg):
     prop, job, tier, known, want_sample = arg
     t0 = time.time()
@@ -278,6 +307,21 @@ def _run_job(prop, job, tier, known, want_sample, t0):
                 e["smt2"] = (res.get("smt2") or "")[:30000]
         elif e["status"] == "unknown":
             e["smt2"] = (res.get("smt2") or "")[:30000]
+            rp = getattr(spec, "replay", None) if spec is not None else None
+            if rp is not None:
+                # no model of the quantified hypotheses within the budget: look for a *candidate* input in the
+                # quantifier-free relaxation and believe it only if the contract's native replay confirms it
+                cand = candidate_model(ob)
+                if cand is not None:
+                    try:
+                        rec = rp(cand, ob)
+                    except Exception as ex:
+                        rec = {"confirmed": False, "note": "replay crashed: " + repr(ex) + traceback.format_exc()[-600:]}
+                    if rec and rec.get("confirmed"):
+                        rec["candidate"] = ("input taken from a model of the obligation's quantifier-free relaxation; "
+                                            "it counts because the real code, run natively, violates the statement on it")
+                        e.update(status="refuted", confirmed=True, replay=rec, goal=str(ob.goal)[:1500],
+                                 model={d.name(): str(cand[d])[:200] for d in cand.decls() if "!" not in d.name()})
         if want_sample and i == 0:
             e["sample_smt2"] = smt.obligation_smt2(ob)[:1500]
         out.append(e)
